@@ -1737,11 +1737,14 @@ class Bag(DaskMethodsMixin):
 
 def accumulate_part(binop, seq, initial, is_first=False):
     if initial is no_default:
+        # Nothing accumulated so far: the first partition, or only empty
+        # partitions before this one. Keep passing ``no_default`` on while
+        # there is still no value.
         res = list(accumulate(binop, seq))
-    else:
-        res = list(accumulate(binop, seq, initial=initial))
+        return res, res[-1] if res else no_default, initial
+    res = list(accumulate(binop, seq, initial=initial))
     if is_first:
-        return res, res[-1] if res else [], initial
+        return res, res[-1], initial
     return res[1:], res[-1]
 
 
